@@ -672,7 +672,7 @@ pub fn deepruns_main(tier: Tier, seed: u64, outfile: &str) -> i32 {
     let w = report::workers();
     let (runs, nkeys) = match tier {
         Tier::Quick => (160u64, 24usize),
-        Tier::Thorough => (4000u64, 40usize),
+        Tier::Thorough => (3000u64, 40usize),
     };
     let pool: KeyPool<V512> = KeyPool::build(report::run_seed(seed, "deep-pool", 0), nkeys, 3, w);
     if pool.keys.len() < nkeys || pool.keys.iter().any(|k| k.sigs.is_empty()) {
@@ -740,7 +740,7 @@ pub fn context(tier: Tier, seed: u64) -> Result<Ctx, String> {
     let w = report::workers();
     let (runs512, runs1024, k512, k1024) = match tier {
         Tier::Quick => (1300u64, 300u64, 16, 6),
-        Tier::Thorough => (60000u64, 15000u64, 48, 16),
+        Tier::Thorough => (40000u64, 10000u64, 48, 16),
     };
     let pseed = report::run_seed(seed, "pool", 0);
     let p512: KeyPool<V512> = KeyPool::build(pseed, k512, 1, w);
